@@ -435,5 +435,5 @@ def denote(doc, tj, lang_id, sub_lang=None):
             else:
                 raise Strict("extension token %r in content" % (it,))
         flush()
-        return {"names": names, "ns": ns, "attrs": attrs, "kids": kids, "has_content": e["has_content"]}
+        return {"names": names, "ns": ns, "attrs": attrs, "kids": kids, "has_content": e["has_content"], "binary": bool(opts & 1)}
     return elt(doc.root)
